@@ -272,7 +272,14 @@ public:
   void setFather(const std::shared_ptr<N>  nodeObject, const std::shared_ptr<N> fatherNodeObject, const std::shared_ptr<E> edgeObject = 0)
   {
     if (edgeObject)
-      this->getGraph()->setFather(this->getNodeGraphid(nodeObject), this->getNodeGraphid(fatherNodeObject), this->getEdgeGraphid(edgeObject));
+    {
+      const EdgeGraphid edgeId = this->getEdgeGraphid(edgeObject);
+      this->getGraph()->setFather(this->getNodeGraphid(nodeObject), this->getNodeGraphid(fatherNodeObject), edgeId);
+      // if the edge object was on the former father branch, unlinking that
+      // branch made the observer forget it: put it back on the new link
+      if (!this->hasEdge(edgeObject))
+        this->associateEdge(edgeObject, edgeId);
+    }
     else
       this->getGraph()->setFather(this->getNodeGraphid(nodeObject), this->getNodeGraphid(fatherNodeObject));
   }
